@@ -1,9 +1,9 @@
 #!/bin/sh
-# tools/verify_seed2.sh <Cxx>...: confirm a second-batch seeded change made by a sub-agent in /tmp/seed2/<Cxx>:
+# tools/verify_seed2.sh <Cxx>...: confirm a second-batch seeded change made by a sub-agent in ${SEEDROOT:-/tmp/seed2}/<Cxx>:
 # the demonstration passes on the clean tree and fails on the changed one, and the unedited test suite passes with the change.
 # Keeps patch.diff, demo.py and the outcomes under /verif/seeded/<Cxx>b/.
 for s in "$@"; do
-  w=/tmp/seed2/$s; o=/verif/seeded/${s}b; mkdir -p $o
+  w=${SEEDROOT:-/tmp/seed2}/$s; o=/verif/seeded/${s}${SEEDSUFFIX:-b}; mkdir -p $o
   git -C $w diff -- gearpy > $o/patch.diff
   cp $w/demo.py $o/demo.py 2>/dev/null
   [ -s $o/patch.diff ] || { echo "$s: empty patch"; continue; }
@@ -11,6 +11,6 @@ for s in "$@"; do
   (cd $w && PYTHONPATH=$w timeout 900 /venv/bin/python demo.py > $o/demo_clean.txt 2>&1); c=$?
   git -C $w apply $o/patch.diff
   (cd $w && PYTHONPATH=$w timeout 900 /venv/bin/python demo.py > $o/demo_mut.txt 2>&1); m=$?
-  (cd $w && PYTHONPATH=$w timeout 3000 /venv/bin/python -m pytest -q -p no:cacheprovider -x -n 6 tests > /tmp/seed2/suite_$s.txt 2>&1); t=$?
-  echo "$s demo_clean=$c demo_mut=$m suite_exit=$t $(tail -n1 /tmp/seed2/suite_$s.txt)" | tee $o/verified.txt
+  (cd $w && PYTHONPATH=$w timeout 3000 /venv/bin/python -m pytest -q -p no:cacheprovider -x -n 6 tests > ${SEEDROOT:-/tmp/seed2}/suite_$s.txt 2>&1); t=$?
+  echo "$s demo_clean=$c demo_mut=$m suite_exit=$t $(tail -n1 ${SEEDROOT:-/tmp/seed2}/suite_$s.txt)" | tee $o/verified.txt
 done
